@@ -2,6 +2,20 @@ from ... import features
 from .ancillary_feature import AncillaryFeature
 
 
+def bg_off_id(mm):
+    """Identify the optional `bg_off` feature for hashing
+
+    The background-corrected brightness features use `bg_off` if it
+    exists. The return value is not a boolean and thus becomes part of
+    the hash of the ancillary feature, such that cached data are not
+    reused after `bg_off` was added, replaced or removed.
+    """
+    if "bg_off" in mm:
+        return ["bg_off", mm["bg_off"]]
+    else:
+        return ["no bg_off"]
+
+
 def compute_contour(mm):
     cont = features.contour.get_contour_lazily(mask=mm["mask"])
     return cont
@@ -77,19 +91,23 @@ def register():
 
     AncillaryFeature(feature_name="bright_bc_avg",
                      method=compute_bright_bc,
-                     req_features=["image", "image_bg", "mask"])
+                     req_features=["image", "image_bg", "mask"],
+                     req_func=bg_off_id)
 
     AncillaryFeature(feature_name="bright_bc_sd",
                      method=compute_bright_bc,
-                     req_features=["image", "image_bg", "mask"])
+                     req_features=["image", "image_bg", "mask"],
+                     req_func=bg_off_id)
 
     AncillaryFeature(feature_name="bright_perc_10",
                      method=compute_bright_perc,
-                     req_features=["image", "image_bg", "mask"])
+                     req_features=["image", "image_bg", "mask"],
+                     req_func=bg_off_id)
 
     AncillaryFeature(feature_name="bright_perc_90",
                      method=compute_bright_perc,
-                     req_features=["image", "image_bg", "mask"])
+                     req_features=["image", "image_bg", "mask"],
+                     req_func=bg_off_id)
 
     AncillaryFeature(feature_name="inert_ratio_cvx",
                      method=compute_inert_ratio_cvx,
